@@ -1008,7 +1008,7 @@ def c12_11(ctx: Ctx):
               key="_remove_empty_blocks::cfi-order")
 
 
-@rule("C02.7", ["C02", "C05", "C10"], "split_byte_interval orders a zero-sized block before a sized block at the same offset (as the block-ordering cache does)", 2)
+@rule("C02.7", ["C02", "C05", "C10", "C09"], "split_byte_interval and apply() order a zero-sized block before a sized block at the same position (as the block-ordering cache does)", 3)
 def c02_7(ctx: Ctx):
     repo = ctx.repo
 
@@ -1035,6 +1035,15 @@ def c02_7(ctx: Ctx):
               "the zero-sized block is grouped into *its* interval, and a later edit at offset 0 of that block shifts the zero-sized block too (its label moves back over untouched bytes, "
               "the offset can become negative and the IR unserialisable)",
               key="split_byte_interval::zero-sized-first")
+    fa, ca, la = sort_key("rewriting.RewritingContext.apply", "self._module.byte_blocks")
+    pa = [src(e) for e in la.body.elts] if isinstance(la.body, ast.Tuple) else [src(la.body)]
+    a3 = la.args.args[0].arg
+    want3 = tie[0].replace(f"{arg}.", f"{a3}.") if tie else f"{a3}.size != 0"
+    ctx.check(len(pa) >= 2 and pa[1] == want3, fa, ca, f"apply() visits blocks in the order (address, {want3})",
+              f"apply() sorts the blocks it visits by `{', '.join(pa)}` only, the neighbour cache by (address, size != 0): for a zero-sized block Z kept at the address of the following data block D, "
+              "set order decides whether D is visited first - then D's deletion also removes Z and Z's own pending modification runs on a detached block (AssertionError in about half of the runs), "
+              "while one-at-a-time application never fails",
+              key="apply::zero-sized-first")
 
 
 @rule("C03.14", ["C03"], "remove_block drops the block's own outgoing edges (and its call's return edges) before it moves its incoming edges", 1)
